@@ -955,6 +955,7 @@ def run_modee(ctx):
         get_project(name)  # load once in the parent; the forked workers copy from this cache
     jobs = [("library", n) for n in libs] + [("migrated", f) for f in E.MIGRATION_FILES]
     jobs += [("generated", ctx.seed * 100003 + i) for i in range(ctx.n(60, 800))]
+    jobs += [("genfw", ctx.seed * 100019 + i) for i in range(ctx.n(12, 200))]
     run_pool(ctx, sorted(jobs, key=lambda j: j[0] != "library" or j[1] != "tb"), "library+generated")
     # operation sequences: phase 1 (length <= 2, every failure shrunk), phase 2 (longer; known minimal failures are not shrunk again)
     seqs = lambda n: [list(s) for k in range(n + 1) for s in itertools.product(E.OPS, repeat=k)]
